@@ -39,9 +39,19 @@ fn read_frames(s: &mut TcpStream, n: usize) -> Vec<Vec<u8>> {
     out
 }
 
-fn build(items: &[String], fb: &[Vec<u8>], fd: &[Vec<u8>]) -> Option<Vec<u8>> {
+/// further items: `z<ms>` = the network stalls for <ms> milliseconds at this point of the stream; `h<announced>:<actual>` = a length header
+/// announcing <announced> bytes followed by only <actual> (arbitrary) bytes
+fn build(items: &[String], fb: &[Vec<u8>], fd: &[Vec<u8>], stalls: &mut std::collections::HashMap<usize, u64>) -> Option<Vec<u8>> {
     let mut wire = vec![];
     for it in items {
+        if let Some(ms) = it.strip_prefix('z') { stalls.insert(wire.len(), ms.parse().ok()?); continue; }
+        if let Some(rest) = it.strip_prefix('h') {
+            let (ann, act) = rest.split_once(':')?;
+            let ann: usize = ann.parse().ok()?; let act: usize = act.parse().ok()?;
+            wire.extend_from_slice(&ann.to_le_bytes());
+            wire.extend((0..act).map(|i| (i * 31 + 7) as u8));
+            continue;
+        }
         let mut header_flip: Option<usize> = None;
         let body: Vec<u8> = if let Some(rest) = it.strip_prefix('g') {
             let (len, seed) = rest.split_once(':')?;
@@ -78,8 +88,18 @@ pub fn run(toks: &[&str]) -> Option<String> {
     let k2 = t.nat()?; let mut to_boss = vec![]; for _ in 0..k2 { to_boss.push(t.tok()?.to_string()); }
     // optional: `cd:<off,off,..>` / `cb:<off,..>` = byte offsets of the stream to the doer / to the boss at which the
     // network pauses (TCP segment boundaries anywhere, also inside the 8-byte length header)
+    // `pd:<off>:<ms>` / `pb:<off>:<ms>`: the network delivers nothing for <ms> milliseconds once <off> bytes of that stream are through
+    // (a stall in the middle of a frame, after a frame, ...)
     let mut cuts: [Vec<usize>; 2] = [vec![], vec![]];
+    let mut pauses: [std::collections::HashMap<usize, u64>; 2] = [Default::default(), Default::default()];
     while let Some(tok) = t.tok() {
+        if let Some(l) = tok.strip_prefix("pd:").map(|l| (0, l)).or(tok.strip_prefix("pb:").map(|l| (1, l))) {
+            let mut it = l.1.split(':');
+            let off: usize = it.next()?.parse().ok()?; let ms: u64 = it.next()?.parse().ok()?;
+            pauses[l.0].insert(off, ms); cuts[l.0].push(off);
+            cuts[l.0].sort(); cuts[l.0].dedup();
+            continue;
+        }
         let (which, list) = if let Some(l) = tok.strip_prefix("cd:") { (0, l) } else if let Some(l) = tok.strip_prefix("cb:") { (1, l) } else { return None };
         for o in list.split(',').filter(|x| !x.is_empty()) { cuts[which].push(o.parse().ok()?); }
         cuts[which].sort(); cuts[which].dedup();
@@ -114,18 +134,23 @@ pub fn run(toks: &[&str]) -> Option<String> {
         } else { seen.insert(ks, i); }
     }
 
-    let wd = build(&to_doer, &fb, &fd)?;
-    let wb = build(&to_boss, &fb, &fd)?;
-    fn deliver(s: &mut TcpStream, wire: &[u8], cuts: &[usize]) {
+    let wd = build(&to_doer, &fb, &fd, &mut pauses[0])?;
+    let wb = build(&to_boss, &fb, &fd, &mut pauses[1])?;
+    for w in 0..2 { let ks: Vec<usize> = pauses[w].keys().cloned().collect(); cuts[w].extend(ks); cuts[w].sort(); cuts[w].dedup(); }
+    fn deliver(s: &mut TcpStream, wire: &[u8], cuts: &[usize], pauses: &std::collections::HashMap<usize, u64>) {
         let mut pos = 0;
         for &c in cuts.iter().filter(|&&c| c > 0 && c < wire.len()) {
             let _ = s.write_all(&wire[pos..c]); let _ = s.flush(); pos = c;
-            std::thread::sleep(std::time::Duration::from_millis(4));
+            std::thread::sleep(std::time::Duration::from_millis(*pauses.get(&c).unwrap_or(&4)));
         }
         let _ = s.write_all(&wire[pos..]); let _ = s.flush(); let _ = s.shutdown(Shutdown::Write);
     }
-    deliver(&mut net_d, &wd, &cuts[0]);
-    deliver(&mut net_b, &wb, &cuts[1]);
+    // (the two directions are delivered concurrently, so that a stall in one does not hold back the other)
+    let (c0, c1, p0, p1) = (cuts[0].clone(), cuts[1].clone(), pauses[0].clone(), pauses[1].clone());
+    let td = std::thread::spawn(move || { deliver(&mut net_d, &wd, &c0, &p0); net_d });
+    deliver(&mut net_b, &wb, &c1, &p1);
+    let net_d = td.join().ok()?;
+    let _ = &net_d;
 
     let mut got_d = vec![];
     while let Ok(c) = doer.receiver.recv() {
